@@ -104,6 +104,20 @@ class FindIdentifiers(_ast_util.NodeVisitor):
 
     def visit_ClassDef(self, node):
         self._add_declared(node.name)
+        # the decorators, bases and keywords are read in this scope; the
+        # body is a scope of its own, whose reads still reach this one
+        for n in node.decorator_list + node.bases:
+            self.visit(n)
+        for keyword in node.keywords:
+            self.visit(keyword.value)
+        inf = self.in_function
+        self.in_function = True
+        local_ident_stack = self.local_ident_stack
+        self.local_ident_stack = set(local_ident_stack)
+        for n in node.body:
+            self.visit(n)
+        self.in_function = inf
+        self.local_ident_stack = local_ident_stack
 
     def visit_Assign(self, node):
         # flip around the visiting of Assign so the expression gets
@@ -130,7 +144,37 @@ class FindIdentifiers(_ast_util.NodeVisitor):
 
     def visit_FunctionDef(self, node):
         self._add_declared(node.name)
+        # decorators and annotations are evaluated in the enclosing scope
+        args = node.args
+        for n in node.decorator_list + [
+            arg.annotation
+            for arg in args.posonlyargs
+            + args.args
+            + args.kwonlyargs
+            + [args.vararg, args.kwarg]
+            if arg is not None and arg.annotation is not None
+        ]:
+            self.visit(n)
+        if node.returns is not None:
+            self.visit(node.returns)
         self._visit_function(node, False)
+
+    visit_AsyncFunctionDef = visit_FunctionDef
+
+    # names bound by the capture patterns of a match statement
+    def visit_MatchAs(self, node):
+        if node.name is not None:
+            self._add_declared(node.name)
+        self.generic_visit(node)
+
+    def visit_MatchStar(self, node):
+        if node.name is not None:
+            self._add_declared(node.name)
+
+    def visit_MatchMapping(self, node):
+        if node.rest is not None:
+            self._add_declared(node.rest)
+        self.generic_visit(node)
 
     def _visit_comprehension(self, node, *elements):
         if not self.in_function:
